@@ -113,7 +113,8 @@ var (
 	xFilter = jp.MustParseString("$.sub.*[?(@.y == 's')]")
 	recomp  *alt.Recomposer
 	// only the top-level N-types are registered; their nested struct types hang behind []*T, map[string]*T, **T
-	recompNested *alt.Recomposer
+	recompNested  *alt.Recomposer
+	recompNested2 *alt.Recomposer // top-level types whose nested struct types hang behind two container levels
 	// shared expressions whose filters have multi-valued operands (wildcard, slice, union, nested filter,
 	// descent) on the left, on the right and on both sides
 	xMulti = []jp.Expr{
@@ -175,6 +176,13 @@ func init() {
 		ncomps[m(0)] = nil
 	}
 	if recompNested, err = alt.NewRecomposer("type", ncomps); err != nil {
+		panic(err)
+	}
+	n2comps := map[any]alt.RecomposeFunc{}
+	for _, m := range nested2Makers {
+		n2comps[m(0)] = nil
+	}
+	if recompNested2, err = alt.NewRecomposer("type", n2comps); err != nil {
 		panic(err)
 	}
 	withKey := &ojg.Options{CreateKey: "type"}
@@ -351,6 +359,11 @@ func init() {
 			src := nestedMakers[(a+3)%len(nestedMakers)](a)
 			dst := nestedMakers[(a+3)%len(nestedMakers)](0)
 			out, err := recompNested.Recompose(alt.Decompose(src), dst)
+			return fmt.Sprintf("%T ", out) + canonStd(alt.Decompose(out, withKey)) + errStr(err), nil
+		}},
+		{"Recomposer.Recompose(nested2)", "recompose", func(a int) (string, []byte) {
+			src := nested2Makers[a%len(nested2Makers)](a)
+			out, err := recompNested2.Recompose(alt.Decompose(src, withKey))
 			return fmt.Sprintf("%T ", out) + canonStd(alt.Decompose(out, withKey)) + errStr(err), nil
 		}},
 		// ---- more buffer-returning calls (private writers: immune, but held and re-inspected like the others)
